@@ -12,7 +12,7 @@ func TestC05_enforcement(t *testing.T) {
 	kit.RequireMode(t, "std")
 	kit.Check(t, kit.Prop[dlCase]{
 		ID: "C05", Quick: 2500, Thor: 300_000,
-		Rule: "DefaultLimiter over every strategy kind (constructed with a limit different from the first estimate) with a scripted estimate trajectory (incl. 0, negative, repeats) or a real algorithm; right after construction and after every event strategy limit == max(1, estimate), every partition share == max(1, ceil(limit*fraction)), and the limit / limit.partition gauges agree; non-trivial = >=2 limit changes incl. a value < 1 or a repeat",
+		Rule: "DefaultLimiter over every strategy kind (constructed with any limit: positive, non-positive, or equal to the first estimate) with a scripted estimate trajectory (incl. 0, negative, repeats, values around 2^15, 2^16 and up to 2^31-1) or a real algorithm; right after construction and after every event strategy limit == max(1, estimate), every partition share == max(1, ceil(limit*fraction)), and the limit / limit.partition gauges agree; non-trivial = >=2 limit changes incl. a value < 1 or a repeat",
 		Gen:  genDL("c05"), Run: func(t *testing.T, c dlCase) kit.Outcome { return runDL(t, c, "c05") },
 	})
 }
